@@ -7,13 +7,17 @@ Proof/PyInsn.lean proves each of them equal to the hand model AgVerif.Insn.post.
 `Instruction<fmt>.get_raw` of the same classes goes to AgVerif.Gen.PyInsnRaw (attribute-reading mode:
 the int attributes read are parameters, the struct pack is not interpreted: `get_raw_<fmt>` returns the
 argument tuple, `get_raw_<fmt>_pack` is the struct string); Proof/PyInsnRaw.lean proves them equal to
-AgVerif.Insn.packArgs on every object the constructor builds.  No loops."""
+AgVerif.Insn.packArgs on every object the constructor builds.
+The one-line observers `get_ref_off`, `get_ref_kind`, `get_literals`, where a format class defines them,
+go to AgVerif.Gen.PyInsnObs (same mode); Proof/PyInsnObs.lean proves them equal to AgVerif.Insn.refOff /
+refKind / literals.  No loops."""
 import ast
 import os
 
 from gen.py2lean import Func, translate, T_LIST
 
 PATH = "androguard/core/dex/__init__.py"
+OBSERVERS = [("get_ref_off", "Int"), ("get_ref_kind", "Int"), ("get_literals", T_LIST)]
 
 
 def classes(repo):
@@ -29,4 +33,13 @@ def generate(repo):
     raws = [Func("get_raw", cls=c, attrs_in=True, ctx_attrs=("cm",), ret=T_LIST, lean_name="get_raw_" + c[len("Instruction"):])
             for c in classes(repo)]
     out.update(translate(repo, PATH, "PyInsnRaw", raws))
+    tree = ast.parse(open(os.path.join(repo, PATH), encoding="utf-8").read())
+    obs = []
+    for c in tree.body:
+        if isinstance(c, ast.ClassDef) and c.name in classes(repo):
+            for m, ret in OBSERVERS:
+                if any(isinstance(f, ast.FunctionDef) and f.name == m for f in c.body):
+                    obs.append(Func(m, cls=c.name, attrs_in=True, ctx_attrs=("cm",), ret=ret,
+                                    lean_name=m + "_" + c.name[len("Instruction"):]))
+    out.update(translate(repo, PATH, "PyInsnObs", obs))
     return out
